@@ -1184,6 +1184,7 @@ func c16R(lo, hi rune) c16Item { return c16Item{K: "r", Lo: lo, Hi: hi} }
 
 func init() {
 	core.Register("C16", func(c *core.Ctx) {
+		defer c16AltLeg(c)
 		corpus := []c16Case{
 			// the "negated normal form taken too early" inputs (fixed by 493eae7)
 			{Class: c16Class{Items: []c16Item{{K: "sh", Name: "d", Neg: true}, c16R('5', '5')}}, Opts: c16E, Salt: 1},
